@@ -9,7 +9,12 @@ use crate::{
     model::{network::edge_id::EdgeId, unit::Cost},
 };
 use itertools::Itertools;
+#[cfg(not(all(kani, feature = "verif-models")))]
 use std::{collections::HashSet, sync::Arc};
+#[cfg(all(kani, feature = "verif-models"))]
+use std::sync::Arc;
+#[cfg(all(kani, feature = "verif-models"))]
+use crate::util::verif_collections::HashSet;
 
 /// an implementation of Yen's k-Shortest Paths Algorithm as described in the paper
 ///
